@@ -71,22 +71,29 @@ impl VIOT {
         self.header.checksum = self.checksum.value();
     }
 
+    // Node offsets are 16-bit fields: refuse a node whose end is not addressable.
+    fn next_offset(&self, len: usize) -> u16 {
+        self.handle_offset
+            .checked_add(len as u16)
+            .expect("VIOT nodes must stay within 64 KiB")
+    }
+
     pub fn add_pci_range(&mut self, range: PciRange) {
         self.update_header(range.u8sum(), PciRange::len() as u32);
-        self.handle_offset += PciRange::len() as u16;
+        self.handle_offset = self.next_offset(PciRange::len());
         self.nodes.push(Box::new(range));
     }
 
     pub fn add_mmio_endpoint(&mut self, ep: MmioEndpoint) {
         self.update_header(ep.u8sum(), MmioEndpoint::len() as u32);
-        self.handle_offset += MmioEndpoint::len() as u16;
+        self.handle_offset = self.next_offset(MmioEndpoint::len());
         self.nodes.push(Box::new(ep));
     }
 
     pub fn add_virtio_pci_iommu(&mut self, iommu: VirtIoPciIommu) -> TranslationHandle {
         let old_offset = self.handle_offset;
         self.update_header(iommu.u8sum(), VirtIoPciIommu::len() as u32);
-        self.handle_offset += VirtIoPciIommu::len() as u16;
+        self.handle_offset = self.next_offset(VirtIoPciIommu::len());
         self.nodes.push(Box::new(iommu));
         TranslationHandle(old_offset)
     }
@@ -94,7 +101,7 @@ impl VIOT {
     pub fn add_virtio_mmio_iommu(&mut self, iommu: VirtIoMmioIommu) -> TranslationHandle {
         let old_offset = self.handle_offset;
         self.update_header(iommu.u8sum(), VirtIoMmioIommu::len() as u32);
-        self.handle_offset += VirtIoMmioIommu::len() as u16;
+        self.handle_offset = self.next_offset(VirtIoMmioIommu::len());
         self.nodes.push(Box::new(iommu));
         TranslationHandle(old_offset)
     }
